@@ -247,14 +247,17 @@ CLAIMED["C10"] = dict(
          "entry of the connected pool at that address and with its identity, a connect event only when the temp-pool entry's "
          "_recv_datagram called _onConnect on a CHALLENGE_RESP-typed datagram (which by C02 opened under its key and carries its token), "
          "never a disconnect (C10_item_events); the shutdown sweep gives every connected client exactly one disconnect and ends with "
-         "shutdown. The per-connection regular expression connect.message*.disconnect over whole histories is checked by the monitor on "
-         "the event log of the REAL loop on every run (partial as one theorem). The loop model is tied to server.py/context.py/twisted.py "
+         "shutdown. Over WHOLE RUNS (any number of iterations, batches, handler behaviours, clocks, random streams, from an empty "
+         "server; C10_lifecycle_whole_run, C10_lifecycle_with_shutdown, C10_connect_and_disconnect_once): the handler events read in order "
+         "are legal - connect only for an identity never seen before, message/disconnect only for an identity between its connect and its "
+         "disconnect, at most one connect and one disconnect per identity - and after shutdown no identity is left live; the same reading "
+         "is checked by the monitor on the event log of the REAL loop on every run. The loop model is tied to server.py/context.py/twisted.py "
          "by executing the unmodified UdpServerThread.run deterministically on the harness thread against real client connections, "
          "comparing per iteration the ordered handler events with identities and tokens, the sends and both pools; a threaded smoke run "
          "checks that all handler events run on one thread.",
-    note=TRUST + "thread identity is a runtime fact (observed, not proved); handler.connect is modelled after _recv_datagram returns; cases are "
+    note=TRUST + "thread identity is a runtime fact (observed, not proved); cases are "
          "recorded runs (real EC keys/signatures), not re-executable bit for bit.",
-    design="§8 C10", technique="Lean 4 proof (per-step event provenance, token freshness) + recorded differential of the real server loop")
+    design="§8 C10", technique="Lean 4 proof (whole-run lifecycle invariant over the pools, per-step event provenance, token freshness) + recorded differential of the real server loop")
 
 CLAIMED["C11"] = dict(
     text="Lean theorems about the entry point and the loop model, for every datagram, pool content and handler behaviour: a block-listed ip is "
